@@ -62,3 +62,22 @@ Theorem C12_set_activation_changes_one_activation_only :
                  n_skipacc n' = n_skipacc n /\ n_loopacc n' = n_loopacc n /\ n_input n' = n_input n.
 Proof. exact set_activation_spec. Qed.
 Print Assumptions C12_set_activation_changes_one_activation_only.
+
+(* predict_batch position by position: as many results as inputs, the i-th result is the prediction
+   of the i-th input *)
+Theorem C12_predict_batch_is_positional :
+  forall (N : Num) (p : pmap_t), pmap_ordered p ->
+    forall (n : network N) (xs ys : list (tensor N)),
+    predict_batch p n xs = Ok ys ->
+    length ys = length xs /\
+    forall i x, nth_error xs i = Some x -> exists y, nth_error ys i = Some y /\ predict n x = Ok y.
+Proof. exact @predict_batch_positional. Qed.
+Print Assumptions C12_predict_batch_is_positional.
+
+(* predict_batch succeeds whenever every single prediction does: batching adds no failure *)
+Theorem C12_predict_batch_adds_no_failure :
+  forall (N : Num) (p : pmap_t), pmap_ordered p ->
+    forall (n : network N) (xs : list (tensor N)),
+    (forall x, In x xs -> exists y, predict n x = Ok y) -> exists ys, predict_batch p n xs = Ok ys.
+Proof. exact @predict_batch_succeeds_when_each_predict_does. Qed.
+Print Assumptions C12_predict_batch_adds_no_failure.
